@@ -128,6 +128,9 @@ func (vc *VC) applyContract(con *Contract, key string, names []string, args []SV
 	if len(names) > 0 && sig.Recv() != nil || con.IsIface {
 		env.vars["recv"] = args[0]
 	}
+	for _, a := range con.Allocs {
+		env.vars[a] = mkInt(vc.newObj())
+	}
 	for _, l := range con.Lets {
 		env.vars[l.Name] = vc.eval(l.E, env)
 	}
